@@ -109,6 +109,7 @@ func (c *Conn) Read(b []byte) (int, error) {
 			c.inbox[0] = seg[n:]
 		}
 		c.inBytes -= n
+		vsched.EnvProgress()
 		return n, nil
 	default:
 		return 0, io.EOF
@@ -136,6 +137,7 @@ func (c *Conn) Write(b []byte) (int, error) {
 	if c.FailWriteAt > 0 && c.WriteCalls >= c.FailWriteAt {
 		return 0, opErr("write", syscall.EPIPE)
 	}
+	vsched.EnvProgress()
 	seg := append([]byte(nil), b...)
 	if p.Coalesce && len(p.inbox) > 0 {
 		p.inbox[len(p.inbox)-1] = append(p.inbox[len(p.inbox)-1], seg...)
@@ -155,6 +157,9 @@ func (c *Conn) Write(b []byte) (int, error) {
 func (c *Conn) Close() error {
 	vsched.Yield("close", c, vsched.Always)
 	c.Closes++
+	if !c.closed {
+		vsched.EnvProgress()
+	}
 	if c.closed {
 		return opErr("close", net.ErrClosed)
 	}
@@ -170,6 +175,7 @@ func (c *Conn) Close() error {
 
 // CloseWrite half-closes: the peer reads EOF after draining, this end can still receive.
 func (c *Conn) CloseWrite() {
+	vsched.EnvProgress()
 	vsched.Yield("closewrite", c, vsched.Always)
 	if c.peer != nil {
 		c.peer.peerGone = true
@@ -180,6 +186,7 @@ func (c *Conn) CloseWrite() {
 // Abort is a peer-side abortive close (RST): the other end's reads fail with
 // ECONNRESET and unread data is discarded; writes to it fail with EPIPE.
 func (c *Conn) Abort() {
+	vsched.EnvProgress()
 	vsched.Yield("abort", c, vsched.Always)
 	c.closed = true
 	if c.peer != nil {
@@ -325,6 +332,7 @@ func (l *Listener) Accept() (net.Conn, error) {
 		return nil, opErr("accept", timeoutError{})
 	}
 	l.hook("accept-conn")
+	vsched.EnvProgress()
 	c := l.queue[0]
 	l.queue = l.queue[1:]
 	l.Accepted = append(l.Accepted, c)
@@ -339,6 +347,7 @@ func (l *Listener) Close() error {
 		return opErr("close", net.ErrClosed)
 	}
 	l.closed = true
+	vsched.EnvProgress()
 	vsched.Release(l)
 	for _, c := range l.queue {
 		// connections that were never accepted are reset
@@ -384,6 +393,7 @@ func (l *Listener) Armed() bool { return l.armed && !l.expired && !l.closed }
 // Expire lets the armed accept deadline pass (the timer event). The caller
 // must have checked Armed (typically as the predicate of its scheduling point).
 func (l *Listener) Expire() {
+	vsched.EnvProgress()
 	if l.armed && !l.closed {
 		l.expired = true
 		vsched.Release(l)
@@ -407,6 +417,7 @@ func (l *Listener) Dial(name string) (*Conn, error) {
 		name = fmt.Sprintf("c%d", l.dials)
 	}
 	srv, cli := Pipe(name)
+	vsched.EnvProgress()
 	l.queue = append(l.queue, srv)
 	vsched.Release(l)
 	return cli, nil
@@ -466,6 +477,7 @@ func (c *Ctx) AfterFunc(f func()) (stop func() bool) {
 }
 
 func (c *Ctx) finish(err error) {
+	vsched.EnvProgress()
 	if c.err != nil {
 		return
 	}
